@@ -483,7 +483,7 @@ func fmtCheckAlignment(viol func(p, clause, class, detail string), conf fmtConfi
 	}
 }
 
-var ambiguousNumber = regexp.MustCompile(`(^|[^0-9.,])[0-9]+[.,][0-9]{3}($|[^0-9.,])`)
+var ambiguousNumber = regexp.MustCompile(`(^|[^0-9.,])([0-9]+)[.,][0-9]{3}($|[^0-9.,])`)
 
 // hasAmbiguousNumber: some posting line carries a number with exactly one mark
 // followed by exactly three digits and a non-zero integer part (outside G).
@@ -492,9 +492,8 @@ func hasAmbiguousNumber(text string) bool {
 		if !strings.HasPrefix(l, " ") && !strings.HasPrefix(l, "\t") {
 			continue
 		}
-		for _, m := range ambiguousNumber.FindAllString(l, -1) {
-			m = strings.Trim(m, " \t$€£¥₽₴\"-+@=;")
-			if i := strings.IndexAny(m, ".,"); i > 0 && strings.Trim(m[:i], "0") != "" {
+		for _, m := range ambiguousNumber.FindAllStringSubmatch(l, -1) {
+			if strings.Trim(m[2], "0") != "" {
 				return true
 			}
 		}
@@ -555,7 +554,7 @@ func checkFormat(c *core.Ctx, prop string) {
 		return
 	}
 	devs := gmodel.Filter(gmodel.Deviations(), "line-end", "final-newline", "blank-lines", "trailing-header", "trailing-posting", "status", "code",
-		"header-comment", "tx-comment-line", "posting-count", "indent", "posting-status", "posting-kind", "account-shape", "amount-present", "amount-sep",
+		"header-comment", "tx-comment-line", "posting-count", "indent", "posting-status", "posting-kind", "account-shape", "account-len", "amount-present", "amount-sep",
 		"commodity", "sign", "number", "cost", "cost-amount", "assertion", "posting-comment", "last-posting-comment", "entry-before", "desc-shape")
 	c.Bound("valid journals", fmt.Sprintf("deviation bound 2 over %d deviations", len(devs)))
 	c.Bound("configurations", fmt.Sprintf("%d configurations (indent 1..8, alignment on/off, minimum column {0,1,10,40,80}, %d commodity-format sets declared in the file or in a workspace file)", len(configs), len(fmtSets)))
@@ -592,7 +591,7 @@ func checkFormat(c *core.Ctx, prop string) {
 		return !c.Expired()
 	})
 	if c.Thorough() {
-		focus := gmodel.Filter(devs, "commodity", "sign", "number", "cost", "cost-amount", "assertion", "posting-comment", "posting-kind", "posting-status", "line-end", "amount-sep", "indent")
+		focus := gmodel.Filter(devs, "commodity", "sign", "number", "cost", "cost-amount", "assertion", "posting-comment", "posting-kind", "posting-status", "account-len", "line-end", "amount-sep", "indent")
 		c.Bound("valid journals (thorough)", fmt.Sprintf("additionally deviation bound 3 over %d amount/layout deviations, each with a rotating eighth of the configurations", len(focus)))
 		gmodel.Enumerate(gmodel.Default, focus, 3, func(j *gmodel.Journal, applied []gmodel.Dev) bool {
 			if len(applied) < 3 {
